@@ -9,7 +9,13 @@ CHECKS = {
  "C18": dict(category="proof",
     text="canonicalize_name/normalize_slashes and is_filename_sane are proved memory-safe, terminating, never-growing and status-correct for every string shorter than 4096 bytes (symbolic length, loop contracts on all six loops, no unwinding). The functional equivalence with an independent spec (fails iff a '..' component, output equals spec, clean, idempotent; sane iff not '.', '..' and slash-free) is a bounded stand-in over every byte string up to length 7 (quick) / 10 (thorough) resp. 12, reported separately and not counted as proved.",
     note="Function contract enforced by harness assume/assert (dfcc hangs on the nested pointer loops, DESIGN 7); CBMC library strcmp model; call-site funnelling is covered under C06/C07, not here."),
+ "C10": dict(category="proof",
+    text="Tag-payload coherence of every reader cache is proved per operation from an arbitrary well-formed cache state (= any history of earlier successful or failed calls): sqfs_meta_reader_seek/read, the data reader's block and fragment caches, the xattr reader's out-of-line value detour, readdir's caller-owned cursor, and the pure id/fragment table lookups. On success the cache tag equals the requested key; on failure the cache is either untouched or invalidated, so every answer is a function of (image, query). Environment (file read_at, compressor) is a contract stub returning arbitrary bytes/errors at every call.",
+    note="Determinism of read_at/do_block for equal arguments is assumed (witness offset/value pair); copies are C19; the cross-API agreement clause (stream vs positional read) is argued from the shared get_block path, not separately proved."),
+ "C14": dict(category="proof",
+    text="Three lemmas over contracts give the crash property for every prefix of the output-file write log: (1) for all arguments the provisional superblock written by sqfs_writer_init is rejected by sqfs_super_read/sqfs_id_table_read, also when torn (loop-free, full domain); (2) every write_at/truncate issued by the data, metadata, table, xattr and compressor-option writers is append-only beyond the superblock (checked at each call site by the file contract with a ghost size; loop contracts where the writers loop); (3) in sqfs_writer_finish the final superblock write happens once, after every stage succeeded, with bytes_used equal to the ghost file size, and never on a failure path.",
+    note="Crash model = process kill between output-file system calls (no fsync is issued); the sqfs_file_t contract (write_at complete or failing), constructor side-effect freedom and the stage contracts of finish are assumed here and listed in the evidence; kernel write-back order is out of scope."),
 }
 
 NOT_APPLICABLE = {p: _PENDING for p in
-  ["C01","C02","C03","C04","C05","C06","C07","C08","C09","C10","C11","C12","C13","C14","C15","C16","C17","C19"]}
+  ["C01","C02","C03","C04","C05","C06","C07","C08","C09","C11","C12","C13","C15","C16","C17","C19"]}
